@@ -60,6 +60,14 @@ ASSUMPTIONS = [
     "judged with the bound for a difference quotient across the table end",
     "operations whose documented outcome is undefined (fewer than two valid table points) "
     "are only checked for leaving a consistent state",
+    "an extension into a gap that cannot hold the requested number of distinct floats has "
+    "no defined post-state; only 'an automatic update must not make evaluate() raise' is "
+    "judged there",
+    "tables with fewer than four points are judged with the Lagrange remainder of the "
+    "chord / parabola instead of the spline bound; with abscissae closer than 1e-9 "
+    "(relative) the accuracy clause is not judged",
+    "a table narrower than the finite-difference stencil: out-of-range derivatives next to "
+    "it are judged for shape and finiteness only",
 ]
 CASE_TIMEOUT = 120
 CHUNK = 25
@@ -76,7 +84,7 @@ FLOORS = {
               "cls": {"R1": 120, "R2": 120, "R3": 120, "R4": 120, "adaptive-on": 250,
                       "adaptive-off": 250, "nan:interval": 40, "nan:above": 40,
                       "nan:below": 40, "ev:adaptive-update": 80, "ev:extend": 200,
-                      "ev:write-read": 100, "sub:Jb": 6, "sub:Jf": 6, "sub:FreeEnergy": 6}},
+                      "ev:write-read": 100, "sub:Jb": 12, "sub:Jf": 12, "sub:FreeEnergy": 12}},
     "thorough": {"distinct_nontrivial": 9000,
                  "mon": {"evaluate_calls": 150000, "derivative_calls": 60000,
                          "elements_value_judged": 500000, "error_mode_raises": 8000,
@@ -314,6 +322,8 @@ def _judge_table(ctx, real, model, up, exc, what, batches=(), earlier=()):
     ctx.count("table_updates_checked")
     info = up.info
     fn = ctx.fn
+    # newMax values that extensions *before this call* were asked to reach
+    ctx.asked_before = set(getattr(ctx, "requested_max", set()))
     ups = list(earlier) + [up]
     if any(u.status == "undefined" for u in ups):
         # nothing is promised about the table; but an automatic update must not make
@@ -393,7 +403,7 @@ def _applicable(ctx, real, info, exc, batches):
         # the previous extension did not land on its newMax exactly (arange rounding), so
         # the same newMax is now 'beyond' the table by a few ulp: step below the spacing
         # of floats, duplicate abscissae
-        asked = getattr(ctx, "requested_max", set())
+        asked = getattr(ctx, "asked_before", set())
         if unsorted and real.hasInterpolation() and info["p_max"] > 0 and \
                 info["new_max"] in asked and 0 < info["new_max"] - float(real._rangeMax) <= info["tol_x"]:
             applicable.append((D7, f"the table ends at {float(real._rangeMax)!r}, "
@@ -404,7 +414,8 @@ def _applicable(ctx, real, info, exc, batches):
     if info.get("op") == "extend":
         if not hasattr(ctx, "requested_max"):
             ctx.requested_max = set()
-        ctx.requested_max.add(info["new_max"])
+        if exc is None:                # only extensions that were carried out
+            ctx.requested_max.add(info["new_max"])
     if info.get("op") == "extend" and getattr(fn, "rows_for_empty", 0) > 0 and \
             (info["n_lo"] == 0 or info["n_hi"] == 0):
         applicable.append((D9, f"only {info['n_lo']} lower / {info['n_hi']} upper points are "
@@ -545,6 +556,10 @@ def _judge_call(ctx, real, model_before, pr, res, exc, batches, x_in, x_copy, wh
     if exc is not None:
         if pr.raises and isinstance(exc, ValueError) and not _is_shape_error(exc):
             ctx.count("error_mode_raises")
+            return
+        if getattr(pr, "may_raise", False) and isinstance(exc, ValueError) and \
+                "Out of bounds" in str(exc):
+            ctx.unjudged += 1        # table narrower than the stencil, other side ERROR
             return
         if isinstance(exc, IndexError) and R == 1 and has_table and not uniform \
                 and np.any(outside):
@@ -727,12 +742,20 @@ def _gen_points(rng, model, fn, poscls, n):
             return xmax
         return float(rng.uniform(xmin, xmax))
 
+    fe = getattr(model, "former_ends", None) if model.has_table else None
+
     def below():
+        # exactly the table end of before a file round trip, when the 15-digit rounding
+        # moved the end inwards (out of range by a few ulp)
+        if fe is not None and fe[0] < xmin and rng.random() < 0.35:
+            return fe[0]
         u = rng.random()
         d = rng.uniform(0.02, 1.0) * lay if u < 0.25 else rng.uniform(0.05, 3.0)
         return float(max(xmin - d, c - W))
 
     def above():
+        if fe is not None and fe[1] > xmax and rng.random() < 0.35:
+            return fe[1]
         u = rng.random()
         d = rng.uniform(0.02, 1.0) * lay if u < 0.25 else rng.uniform(0.05, 3.0)
         return float(min(xmax + d, c + W))
@@ -879,6 +902,7 @@ def _op_table(ctx, rng, real, model, fn, kind, args, label):
     if kind in ("new", "write-read"):
         ctx.requested_max = set()      # the table ends are no longer those of an extension
     if kind == "new":
+        model.former_ends = None
         up = model.new_table(*args)
         res, exc, batches, st = _do(real, lambda: real.newInterpolationTable(*args))
     elif kind == "extend":
@@ -897,7 +921,9 @@ def _op_table(ctx, rng, real, model, fn, kind, args, label):
             up = M.TableUpdate("ok", model.xs, model.ys, {"op": "modes"})
     elif kind == "write-read":
         path = args[0]
+        ends = (model.xmin, model.xmax) if model.has_table else None
         up = model.write_read()
+        model.former_ends = ends
         res, exc, batches, st = _do(real, lambda: (real.writeInterpolationTable(path),
                                                    real.readInterpolationTable(path)))
         ctx.events.add("write-read")
@@ -1118,6 +1144,27 @@ def _drive(case, fn, factory, keybase, labels, shapes):
         args = _choose_table_args(rng, fn)
         ok = _op_table(ctx, rng, real, model, fn, "new", args, "new")
         sync(ok)
+    if case.get("script") == "roundtrip-edge" and model.has_table and aborted is None:
+        # directed prefix: file round trip, then evaluations exactly at the former table
+        # ends (out of range by a few ulp where the 15-digit rounding moved an end inwards)
+        path = f"/tmp/c18_{os.getpid()}_{case['i']}_s.txt"
+        ok = _op_table(ctx, rng, real, model, fn, "write-read", (path,), "write-read")
+        sync(ok)
+        fe = getattr(model, "former_ends", None)
+        for j in range(thr + 2):
+            if aborted is not None or fe is None or not model.has_table:
+                break
+            pts = [e for e, out in ((fe[0], fe[0] < model.xmin), (fe[1], fe[1] > model.xmax))
+                   if out]
+            if not pts:
+                break
+            if j % 2 == 0:
+                ok = _op_eval(ctx, rng, real, model, fn, 0, shape="scalar", x=float(pts[0]),
+                              poscls="outside")
+            else:
+                ok = _op_eval(ctx, rng, real, model, fn, 0, shape="1d",
+                              x=np.array(pts, dtype=float), poscls="outside")
+            sync(ok)
     nops = case["nops"]
     k = 0
     while k < nops and aborted is None:
@@ -1345,7 +1392,14 @@ def generate(tier, seed):
                         "thr": int(rng.integers(3, 13)),
                         "nops": int(rng.integers(max(4, maxops // 2), maxops + 1)),
                         "pair0": pair0, "start": "table" if rng.random() < 0.8 else "none"})
-    nsub = 8 if tier == "quick" else 80
+    for j in range(32 if tier == "quick" else 240):
+        center = float(rng.uniform(-40, 40))
+        cases.append({
+            "kind": "seq", "script": "roundtrip-edge", "s": int(rng.integers(1 << 31)),
+            "fn": M.random_function_spec(rng, 1 + j % 4, center, W_DOMAIN, "none"),
+            "adaptive": True, "n0": int(rng.integers(10, 41)), "thr": int(rng.integers(3, 7)),
+            "nops": 4, "pair0": 5, "start": "table"})
+    nsub = 16 if tier == "quick" else 120
     for j in range(nsub):
         for sub in ("Jb", "Jf", "FE"):
             cases.append({"kind": "sub", "sub": sub, "s": int(rng.integers(1 << 31)),
